@@ -94,6 +94,12 @@ type borrow struct {
 
 var borrows = map[string][]borrow{
 	"C01": {{"C03", "C03.R8|SetERC20ToTokenDenom", "C01.R9", "token identity of pending transfers: pool entries and batches name their token by ERC20 contract only, so the contract -> denom binding is written only when the contract has no binding yet (otherwise refunds, burns and mints of pending transfers move another denom); decided by the rule C03.R8", 1}},
+	"C02": {
+		{"C11", "C11.R1|", "C02.R5", "votes are pooled by claim hash: the validators that reach the quorum voted for the identical claim only if every effect-bearing field of the claim is hashed (decided by the rule C11.R1)", 20},
+		{"C03", "C03.R3|skyway.SendToPalomaClaim", "C02.R6", "each validator votes for itself: a claim's orchestrator is the message creator (decided by the rule C03.R3)", 1},
+		{"C03", "C03.R3|skyway.BatchSendToRemoteClaim", "C02.R6", "each validator votes for itself: a claim's orchestrator is the message creator (decided by the rule C03.R3)", 1},
+		{"C03", "C03.R3|skyway.LightNodeSaleClaim", "C02.R6", "each validator votes for itself: a claim's orchestrator is the message creator (decided by the rule C03.R3)", 1},
+	},
 	"C03": {
 		{"C17", "C17.R1|saveJob|the job id", "C03.R9", "a create request cannot touch another account's job: the id asked about is the id written (decided by the rule C17.R1)", 1},
 		{"C17", "C17.R1|AddNewJob|the job id", "C03.R9", "a create request cannot touch another account's job: the id asked about is the id written (decided by the rule C17.R1)", 1},
